@@ -63,6 +63,8 @@ QMC_ENGINES = {"Sobol", "Halton", "LatinHypercube", "PoissonDisk", "MultinomialQ
                "QMCEngine"}
 QMC_PURE = {"scale", "discrepancy", "update_discrepancy", "geometric_discrepancy"}
 SCIPY_STOCHASTIC = {"differential_evolution", "dual_annealing", "basinhopping", "shgo"}
+PRINT_STATE_CALLS = {"numpy.array2string", "numpy.array_str", "numpy.array_repr", "numpy.format_float_positional",
+                     "numpy.format_float_scientific"}
 TIME_CALLS = {"time.time", "time.time_ns", "time.perf_counter", "time.perf_counter_ns", "time.monotonic",
               "time.monotonic_ns", "time.process_time", "time.process_time_ns", "time.clock",
               "datetime.datetime.now", "datetime.datetime.utcnow", "datetime.datetime.today",
@@ -526,6 +528,30 @@ class Scanner:
         return self.seed_classes(arg, mod, fn)
 
     @staticmethod
+    def print_state_kind(call, mod, fn):
+        """np.array2string & co read np.get_printoptions() for every layout option not given in the call.  ReadOnlyConstant
+        when max_line_width, threshold, edgeitems and legacy are all pinned (directly or through `**name` where `name` is
+        assigned a dict(...) / {...} literal with constant keys in the same function); LoggingOnly inside display-only
+        code (__str__/__repr__/_repr_*, or a module called formatting.py); otherwise Unclassified."""
+        need = {"max_line_width", "threshold", "edgeitems", "legacy"}
+        have = {k.arg for k in call.keywords if k.arg}
+        for k in call.keywords:
+            if k.arg is None and isinstance(k.value, ast.Name) and fn is not None:
+                for st in ast.walk(fn):
+                    if isinstance(st, ast.Assign) and any(isinstance(t, ast.Name) and t.id == k.value.id for t in st.targets):
+                        v = st.value
+                        if isinstance(v, ast.Call) and isinstance(v.func, ast.Name) and v.func.id == "dict" and not v.args:
+                            have |= {kw.arg for kw in v.keywords if kw.arg}
+                        elif isinstance(v, ast.Dict) and all(isinstance(x, ast.Constant) for x in v.keys):
+                            have |= {x.value for x in v.keys}
+        if need <= have:
+            return "ReadOnlyConstant"
+        fname = getattr(fn, "name", "") if fn is not None else ""
+        if fname in ("__str__", "__repr__") or fname.startswith("_repr_") or mod.rel.endswith("/formatting.py"):
+            return "LoggingOnly"
+        return "Unclassified"
+
+    @staticmethod
     def kind_of_class(c):
         return {"SeedFromData": "SeededFromRunData", "SeedFromGlobalStream": "GlobalStream",
                 "GlobalStream": "GlobalStream", "Unscrambled": "ReadOnlyConstant"}.get(c, "Unclassified")
@@ -586,6 +612,8 @@ class Scanner:
             elif q in ("os.environ.get", "os.getenv") or (q or "").startswith("os.environ"):
                 ok = bool(n.args) and isinstance(n.args[0], ast.Constant) and n.args[0].value == HOOK_ENV
                 self.emit(m, n, "CEnvRead", "SeedNA", "ReadOnlyConstant" if ok else "Unclassified")
+            elif q in PRINT_STATE_CALLS:
+                self.emit(m, n, "CPrintState", "SeedNA", self.print_state_kind(n, m, fn))
             elif q and q.startswith("logging."):
                 self.emit(m, n, "CLogging", "SeedNA", "LoggingOnly")
             elif q in ("functools.lru_cache", "functools.cache"):
